@@ -100,6 +100,14 @@ def run(ctx):
                     later = rng.choice(['<var b="x"/>', '<var b=""/><rect wh="1"/>', '<rect wh="2"/><var b="y" c="z"/>', ''])
                     xml = '<svg><var b="%s" c="%s"/><var a="$b$c"/>%s<rect wh="1" text="$a"/></svg>' % ('p' * half, 'q' * rest, later)
                     add(xml, {'var_limit': L, 'add_auto_styles': False}, 'ok' if n <= L else 'VarLimitError', 'varexp len=%d L=%d later=%s' % (n, L, bool(later)))
+                if 2 <= n <= 400:
+                    # a value that reaches the name without a <var> of its own (a group attribute, a for item) and is then assigned to
+                    # itself: the assignment is checked like any other
+                    val2 = 'y' * n
+                    xml = rng.choice(['<svg><g big="%s"><var big="$big"/><rect wh="1"/></g></svg>' % val2,
+                                      '<svg><for data="\'%s\'" var="it"><var it="$it"/><rect wh="1"/></for></svg>' % val2,
+                                      '<svg><g big="%s"><var copy="$big" big="$big"/><rect wh="1"/></g></svg>' % val2])
+                    add(xml, {'var_limit': L, 'add_auto_styles': False}, 'ok' if n <= L else 'VarLimitError', 'varself len=%d L=%d' % (n, L))
                 if 4 <= L <= 300 and d in (0, 1):
                     # doubling loop: 1, 2, 4, ... reaches 2^k; reset afterwards
                     k = 0
@@ -116,7 +124,7 @@ def run(ctx):
     # flat documents of any length are accepted whatever the depth limit allows for their nesting
     sizes = [10, 120, 500] if quick else [10, 120, 500, 1500, 5000]
     for n in sizes:
-        for kind in ['rect', 'textcontent', 'defs', 'g', 'var', 'loop', 'textattr', 'forward', 'comment', 'lineargradient', 'if', 'reuse']:
+        for kind in ['rect', 'textcontent', 'defs', 'g', 'var', 'loop', 'textattr', 'forward', 'comment', 'lineargradient', 'if', 'reuse', 'nestedsvg', 'emptyg', 'symbol']:
             if kind == 'rect': body = '<rect xy="1 2" wh="3"/>' * n; need = 2
             elif kind == 'textcontent': body = '<text xy="1 2">t</text>' * n; need = 3      # content promotion costs a level (K16)
             elif kind == 'defs': body = '<defs><rect id="d" wh="1"/></defs>' * min(n, 600); need = 3
@@ -128,6 +136,9 @@ def run(ctx):
             elif kind == 'comment': body = '<!-- c --><rect wh="1"/>' * n; need = 2
             elif kind == 'lineargradient': body = '<linearGradient><stop offset="0"/></linearGradient>' * min(n, 800); need = 3
             elif kind == 'if': body = '<if test="1"><rect wh="1"/></if>' * min(n, 800); need = 3
+            elif kind == 'nestedsvg': body = '<rect wh="1"/>' + '<svg xmlns="http://www.w3.org/2000/svg"><rect width="1" height="1"/></svg>' * min(n, 600); need = 3
+            elif kind == 'emptyg': body = '<g class="k"/><g id="x"></g>' * min(n, 600); need = 2
+            elif kind == 'symbol': body = '<symbol id="s"><rect wh="1"/></symbol><use href="#s"/>' * min(n, 400); need = 3
             else: body = '<specs><rect id="t" wh="2"/></specs>' + '<reuse href="#t"/>' * min(n, 800); need = 3
             for lim in (need, need + 1, 100):
                 add('<svg>%s</svg>' % body, {'depth_limit': lim, 'add_auto_styles': False}, 'ok', 'flat %s x%d depth-limit=%d' % (kind, n, lim))
